@@ -130,7 +130,15 @@ func (s *Syncer[H]) moveTail(ctx context.Context, from, to H) error {
 	switch {
 	case from.Height() < to.Height():
 		log.Infof("move tail up from %d to %d, pruning the diff...", from.Height(), to.Height())
-		err := s.store.DeleteRange(ctx, from.Height(), to.Height())
+		storeHead, err := s.store.Store.Head(ctx)
+		if err == nil && to.Height() > storeHead.Height()+1 {
+			// the new tail lies beyond everything that is stored (the store fell behind the
+			// chain by more than the window): none of the old headers is kept, and the
+			// store starts over from the new tail
+			return s.restartFromTail(ctx, from, storeHead, to)
+		}
+
+		err = s.store.DeleteRange(ctx, from.Height(), to.Height())
 		if err != nil {
 			return fmt.Errorf(
 				"deleting headers up to newly configured tail(%d): %w",
@@ -155,6 +163,24 @@ func (s *Syncer[H]) moveTail(ctx context.Context, from, to H) error {
 		}
 	}
 
+	return nil
+}
+
+// restartFromTail deletes the whole stored chain [from:head] and makes the given tail,
+// which lies above head+1 and was appended as a detached header, the only header of the chain.
+func (s *Syncer[H]) restartFromTail(ctx context.Context, from, head, tail H) error {
+	if err := s.store.DeleteRange(ctx, from.Height(), head.Height()+1); err != nil {
+		return fmt.Errorf(
+			"deleting all headers below newly configured tail(%d): %w",
+			tail.Height(),
+			err,
+		)
+	}
+	// the store has no head and tail anymore: appending the tail again initializes both
+	if err := s.store.Store.Append(ctx, tail); err != nil {
+		return fmt.Errorf("appending tail header %d: %w", tail.Height(), err)
+	}
+	s.store.head.Store(&tail)
 	return nil
 }
 
